@@ -61,7 +61,7 @@ EventStep ==
           \/ Is("Crash", p) /\ Crash(p)
           \* return of CacheStore.load(): the value handed to the caller is the model's result
           \/ /\ Is("Ret", p) /\ result[p].k = E.k /\ (E.k = "data" => result[p].ver = E.ver)
-             /\ UNCHANGED <<srcVer, srcMtime, edits, files, nextIno, entryIno, stamp,
+             /\ UNCHANGED <<srcVer, srcMtime, edits, files, nextIno, entryIno, stamp, stampFrom,
                             pc, fd, stm, parsed, tmp, result, startVer, checkedAt, putAt, puts>>
 
 \* property layer, evaluated on the current state
@@ -74,7 +74,7 @@ Broken == StaleSet
 ResetModel ==
     /\ srcVer' = 1 /\ srcMtime' = 0 /\ edits' = 0 /\ clock' = 1
     /\ files' = [i \in 1..MaxIno |-> Free]
-    /\ nextIno' = 1 /\ entryIno' = 0 /\ stamp' = 1
+    /\ nextIno' = 1 /\ entryIno' = 0 /\ stamp' = 1 /\ stampFrom' = 0
     /\ pc' = [p \in Procs |-> "cv_read"]
     /\ fd' = [p \in Procs |-> 0] /\ stm' = [p \in Procs |-> 0] /\ parsed' = [p \in Procs |-> 0]
     /\ tmp' = [p \in Procs |-> 0] /\ result' = [p \in Procs |-> Pending]
